@@ -69,3 +69,26 @@ Qed.
 Example C05_example_stamps :
   stamps (w_log ex_w) = [1; 4; 4; 5; 5; 5; 7; 8; 9; 10; 11]%Z.
 Proof. vm_compute. reflexivity. Qed.
+
+(* Tie to the decoded packets (whole histories, Tracer/History*.v): the ghost events ETs 0 / ETs 1 the
+   theorems above speak about carry exactly the values a CTF reader finds in the timestamp_begin /
+   timestamp_end members of the packets handed over - the i-th packet's specification (to which the
+   reader decodes it: pkt_ok / spec_packet) has k_tsb = the i-th beginning timestamp written and
+   k_tse = the i-th end timestamp written, each reduced to its field size by the reader.  Event
+   record timestamps: C03_history (`call_out`: the record carries the sample taken at the entry of
+   its tracing call). *)
+From BT.Tracer Require Import Decode History HistoryRecord HistoryStep HistoryMain.
+Theorem C05_decoded_packet_timestamps :
+  forall d user cs_size, wf_d d user cs_size ->
+  forall buf oracle h,
+    fits cs_size (8 * buf) -> or_ok cs_size oracle -> Forall (call_ok d) h ->
+    let w0 := mk_w (init_ctx buf) oracle 0%Z [] false user in
+    let w1 := step d w0 COpen in
+    c_open (w_c w1) = true -> inb_run d w1 h ->
+    let w := run d buf user oracle (COpen :: h) in
+    w_err w = false -> c_open (w_c w) = false ->
+    exists K, Forall2 (pkt_ok d user) (pkts (obs (w_log w))) K /\
+              (has_tsb d = true -> map k_tsb K = stamps_of 0 (w_log w)) /\
+              (has_tse d = true -> map k_tse K = stamps_of 1 (w_log w)).
+Proof. exact history_stamps. Qed.
+Print Assumptions C05_decoded_packet_timestamps.
